@@ -1170,6 +1170,9 @@ func modeC05g(e *Env) {
 		if len(steps) == 0 {
 			continue
 		}
+		if complete, _ := s["complete"].(bool); !complete && !e.Thorough() && (i+int(e.Seed))%12 != 0 && steps[len(steps)-1][0] != "end" {
+			continue // transition-coverage scripts (Cover_Conn): a twelfth of them in the quick tier, chosen by the seed
+		}
 		l, a := scriptScenario(e.R, cfgs[i%len(cfgs)], steps)
 		clean := defaultAttempt()
 		clean.HookTrace = true
